@@ -72,10 +72,34 @@ def mixed_cases(run: Run, n: int):
     return out
 
 
+def sibling_duplicate_case():
+    """Corner: an inlined model whose two If branches each own a value of the same name (legal ONNX)."""
+    import numpy as np
+    from onnx import TensorProto as TP, helper as oh, numpy_helper
+
+    def vi(name, shape=(2,), t=TP.FLOAT):
+        return oh.make_tensor_value_info(name, t, list(shape))
+
+    w = numpy_helper.from_array(np.array([3, 4], np.float32), "W")
+    then_g = oh.make_graph([oh.make_node("Add", ["x", "W"], ["tb"])], "then", [], [vi("tb")], [w])
+    else_g = oh.make_graph([oh.make_node("Mul", ["x", "W"], ["eb"])], "else", [], [vi("eb")], [w])
+    g = oh.make_graph([oh.make_node("If", ["c"], ["y"], then_branch=then_g, else_branch=else_g)], "g",
+                      [vi("x"), vi("c", (), TP.BOOL)], [vi("y")])
+    m = oh.make_model(g, opset_imports=[oh.make_operatorsetid("", 17)], ir_version=8)
+    x, c = B.argument(B.Tensor(np.float32, (2,))), B.argument(B.Tensor(np.bool_, ()))
+    (y,) = B.inline(m)(x, c).values()
+    case = B.Case({"x": x, "c": c}, {"y": y}, False, {"names": "corner:inline-sibling-duplicate"})
+    return case
+
+
 def run(run: Run) -> int:
     run.check_theorems(PROPS, CONE, thorough_coqchk=(run.tier == "thorough"))
     n = 300 if run.tier == "quick" else 4000
     cases, hist = gen_cases(run, n)
+    corner = sibling_duplicate_case()
+    B.run_impl(corner)
+    corner.coq = None        # the model's validator rejects this output by design (value name defined twice)
+    cases.append(corner)
     mixed = mixed_cases(run, n // 4)
     for c in mixed:
         B.run_impl(c)
@@ -96,6 +120,8 @@ def run(run: Run) -> int:
         if problems:
             n_oracle_bad += 1
             kind = problems[0].split(" ")[0]
+            if c.meta.get("names") == "corner:inline-sibling-duplicate" and all("Inline_" in p and "defined 2 times" in p for p in problems):
+                kind = "inline-sibling-duplicate-names"
             run.fail("impl", f"C02/invalid-model-returned/{kind}", "build returned a model that is not valid: " + problems[0][:160],
                      {"problems": problems[:5], "case": B.describe(c)})
     for i in mism[:5]:
